@@ -97,6 +97,52 @@ func runInflight(args []string) error {
 			}
 		}
 	}
+	// C05, configuration drift: the session was created by replica 1; replica 2 - same store, same encryption key, ANOTHER configured client id
+	// (a rolling change) - serves the cookie-based logout. The cookie's ticket names the store key, so the logout must delete exactly that entry.
+	for _, logout := range []string{"ll", "lo"} {
+		for _, later := range []string{"p", "i", "f", "r"} {
+			synctest.Run(func() {
+				s, err := newStack(stackOpts{redis: true, maxLifetime: 2 * time.Hour, useSecret: true, updAtomic: true, fwdAuth: true, replica2ClientID: "client-id-v2"})
+				if err != nil {
+					rerr = err
+					return
+				}
+				defer s.close()
+				lr, err := s.login("sid-1", "idporten-loa-high")
+				if err != nil {
+					rerr = err
+					return
+				}
+				time.Sleep(time.Minute)
+				// the session works on replica 2 as well (the ticket carries the key)
+				pre := s.spawn(2, reqSpec{kind: "i", cookie: lr.cookie})
+				for i := 0; i < 60 && s.stepThread(2, time.Second) == "ran"; i++ {
+				}
+				b := s.spawn(4, reqSpec{kind: logout, cookie: lr.cookie}) // even thread ids: replica 2
+				for i := 0; i < 60 && s.stepThread(4, time.Second) == "ran"; i++ {
+				}
+				var outs [][]int64
+				for k, tid := range []int{5, 6} { // the old cookie afterwards, on replica 1 and on replica 2
+					_ = k
+					c := s.spawn(tid, reqSpec{kind: later, cookie: lr.cookie})
+					for i := 0; i < 60 && s.stepThread(tid, time.Second) == "ran"; i++ {
+					}
+					outs = append(outs, s.outcomeCode(c))
+				}
+				s.gredis.syncTime()
+				_, gerr := s.mr.Get(s.sessionKey("sid-1"))
+				rec := map[string]any{"kind": "drift", "logout": logout, "later": later, "works_on_replica2_before": s.outcomeCode(pre), "logout_outcome": s.outcomeCode(b),
+					"logout_done": b.done, "later_outcomes": outs, "entry_exists_at_end": gerr == nil}
+				s.drainAll()
+				bb, _ := json.Marshal(rec)
+				w.Write(bb)
+				w.WriteByte('\n')
+			})
+			if rerr != nil {
+				return rerr
+			}
+		}
+	}
 	// C07: the re-read under the refresh lock must see what the previous lock holder stored. Here another request's store read has
 	// been executed BEFORE that write but is delivered AFTER it (all three requests on one replica): if the re-read is served by that
 	// older read, the spent refresh token is presented again.
